@@ -1,10 +1,10 @@
 // SPDX-License-Identifier: MIT OR Apache-2.0
 
-#[cfg(test)]
+#[cfg(any(test, p2panda_p2panda_verif))]
 use mock_instant::thread_local::Instant;
 use rand::RngExt;
 use std::time::Duration;
-#[cfg(not(test))]
+#[cfg(not(any(test, p2panda_p2panda_verif)))]
 use std::time::Instant;
 
 use rand_chacha::ChaCha20Rng;
@@ -114,6 +114,42 @@ impl Backoff {
         );
 
         Duration::from_millis(range as u64)
+    }
+}
+
+/// Verification hooks: constructor for custom configurations and read-only accessors. Compiled
+/// only with `--cfg p2panda_p2panda_verif`.
+#[cfg(p2panda_p2panda_verif)]
+impl Config {
+    pub fn new(
+        initial_value: Duration,
+        min_increment: Duration,
+        max_increment: Duration,
+        max_value: Duration,
+        min_reset: Duration,
+        max_reset: Duration,
+    ) -> Self {
+        Self {
+            initial_value,
+            min_increment,
+            max_increment,
+            max_value,
+            min_reset,
+            max_reset,
+        }
+    }
+}
+
+#[cfg(p2panda_p2panda_verif)]
+impl Backoff {
+    /// Current backoff delay.
+    pub fn value(&self) -> Duration {
+        self.value
+    }
+
+    /// Currently drawn waiting time until the backoff resets to its initial value.
+    pub fn reset_after(&self) -> Duration {
+        self.reset_after
     }
 }
 
